@@ -376,3 +376,13 @@ pub fn c08(ctx: &mut Ctx) {
 pub fn replay_d(ctx_id: &str, case: &serde_json::Value) -> i32 {
     crate::core::replay_case::<DCase>(ctx_id, case, 4, |c| direct::run_case(c).0)
 }
+
+// ---------------------------------------------------------------- C11 (router half)
+pub fn c11_router(ctx: &mut Ctx) {
+    let g = RrGen { faults: false, close: false, wake_only: false, junk: true, big: true, many_repliers: false, max_len: 50, prelude: true };
+    ctx.search("rr-frames", move || rr::case_strategy(g), ctx.tier.pick(40_000, 1_500_000), true, |c: &RrCase| {
+        crate::core::watchdog::tick();
+        let (o, f) = rr::run_case(c, RrOpts { probe: true });
+        match o { Outcome::Pass { .. } => Outcome::pass(rr_labels(&f), f.junk > 0 || f.big_over > 0), o => o }
+    });
+}
